@@ -21,6 +21,7 @@ def argErrs (a : Arg) : List Lit :=
   | .usz => [a.onErr.getD .notInt]
   | .kw => []
   | .u32 => [a.onErr.getD .notInt]
+  | .pos => [a.onErr.getD .notInt, .syntax]
 
 theorem extract_err {a : Arg} {v : Bytes} {e : BErr} (h : a.extract v = .error e) :
     ∃ l ∈ argErrs a, e = .lit l := by
@@ -50,6 +51,14 @@ theorem extract_err {a : Arg} {v : Bytes} {e : BErr} (h : a.extract v = .error e
   · simp at h
   · cases hp : parseUnsigned u32Max (lossy v) <;> rw [hp] at h <;> simp at h
     exact ⟨_, by simp, h.symm⟩
+  · cases hp : parseI64 v with
+    | none => rw [hp] at h; simp at h; exact ⟨_, by simp, h.symm⟩
+    | some i =>
+      rw [hp] at h
+      simp only at h
+      split at h
+      · simp only [Except.error.injEq] at h; exact ⟨.syntax, by simp, h.symm⟩
+      · simp at h
 
 theorem extractFixed_err : ∀ (as : List Arg) (vs : List Bytes) (e : BErr), as.length = vs.length →
     extractFixed as vs = .error e → ∃ l ∈ as.flatMap argErrs, e = .lit l := by
